@@ -88,7 +88,7 @@ def transform_sequence(rng):
         else:
             nxt = cur.copy()
             nxt.eliminate_1to1_forks()
-        # only fork elimination may be excused for reordering state elements (known finding D27); the function is still compared
+        # only fork elimination may be excused for reordering state elements (known finding D29); the function is still compared
         msg = same_function(cur, nxt, rng, ' -> '.join(desc['steps']), reordered if step == 'eliminate' else None)
         if msg:
             return desc, msg
@@ -254,13 +254,45 @@ def substitute_random(rng):
             if rng.random() < 0.4:      # the output feeds more logic
                 g = Node(host, f'g{k}', 'INV1'); Line(host, f, g)
                 o2 = Node(host, f'pq{k}', 'output'); host.io_nodes.append(o2); Line(host, g, o2)
-    before = s_names(host)
+    # host state elements that have nothing to do with the instance (their order in s_nodes must survive), a host gate in front of an
+    # instance pin (it dangles if that pin only feeds an unconnected output), and an arbitrary node / line creation order
+    if rng.random() < 0.5 and pis:
+        src = pis[0][1].outs[0].reader          # the fork behind the first input port
+        for j in range(rng.randint(1, 3)):
+            d = Node(host, f'st{j}', rng.choice(['DFF', 'dff_x1', 'LATCH']))
+            Line(host, src, d)
+            q = Node(host, f'pst{j}', 'output'); host.io_nodes.append(q)
+            Line(host, d, q)
+        desc['host_state'] = True
+    if rng.random() < 0.4:
+        cand = [k for k, n in enumerate(ins) if conn_in[k]]
+        if cand:
+            k = rng.choice(cand)
+            ln = u.ins[k]
+            fk = ln.driver
+            ln.remove()
+            g = Node(host, f'hg{k}', 'BUF1')
+            Line(host, fk, g); Line(host, g, (u, k))
+            desc['host_gate_at'] = k
+    if rng.random() < 0.6:
+        host = cg.permute_circuit(rng, host)
+        u = host.cells['u1']
+        pis = [(k, host.cells[p.name]) for k, p in pis]
+        pos = [(k, host.cells[o.name]) for k, o in pos]
+        desc['permuted'] = True
+    desc['host'] = cg.describe(host)
+    before, before_k = s_names(host), s_keys(host)
     try:
         host.substitute(u, impl)
     except Exception as e:
         return desc, f'substitute raises {type(e).__name__}: {e}'
+    reordered = None
     if before != s_names(host):
-        return desc, 'substitute changes the names/order of ports'
+        nio, after_k = len(host.io_nodes), s_keys(host)
+        if before_k[:nio] == after_k[:nio] and sorted(before_k) == sorted(after_k):
+            reordered = f'substitute changes the order of the state elements: {[x[0] for x in before[nio:]]} -> {[x[0] for x in s_names(host)[nio:]]}'
+        else:
+            return desc, f'substitute changes the names/order of ports and state elements: {before} -> {s_names(host)}'
     for bits in patterns_for(len(pis), rng, 32):
         stim_impl = [0] * len(impl.s_nodes)
         for (k, p), b in zip(pis, bits):
@@ -273,7 +305,21 @@ def substitute_random(rng):
         for k, o in pos:
             exp = cap_i[impl.s_nodes.index(outs[k])]
             if t[host.s_nodes.index(o)] != exp:
+                # does the difference come from the reading "a variadic gate's arity is its highest CONNECTED pin" (known finding D22)?
+                # evaluate the implementation with the readers of the unconnected inputs left unconnected instead of reading a 0 port
+                cut = impl.copy()
+                for kk, n in enumerate(ins):
+                    if not conn_in[kk]:
+                        for l in list(cut.forks[n.name].outs):
+                            if l is not None:
+                                l.remove()
+                _, cap_c = on.evaluate(cut, stim_impl, on.Alg2)
+                if cap_c[impl.s_nodes.index(outs[k])] == t[host.s_nodes.index(o)]:
+                    desc['class'] = 'variadic-high-pin-unconnected'
                 return desc, f'output {k} for inputs {bits}: after substitution {t[host.s_nodes.index(o)]}, implementation computes {exp}'
+    if reordered:
+        desc['class'] = 'state-order'
+        return desc, reordered
     return desc, None
 
 
@@ -300,7 +346,7 @@ def run(ck):
         ck.count(1, 'substitute shapes')
         ck.nontrivial(('u', desc.get('impl'), str(desc.get('connected'))))
         if what:
-            fails.append(('substitute:' + desc.get('impl', ''), desc, what))
+            fails.append(('substitute:' + (desc.get('class') or desc.get('impl', '')), desc, what))
     libs = ['GSC180', 'NANGATE', 'NANGATE_ZN', 'SAED32', 'SAED90']
     seen = set()
     for lib in libs:
